@@ -140,6 +140,34 @@ theorem branch_probs_sum_gates (k : Consts R) (L : k.Laws) (S : k.StarLaws) (n :
     · exact AllPreserve.apply _ _ (gates_preserve k L S n on1 hb) AllPreserve.nil
     · exact AllPreserve.apply _ _ (gates_preserve k L S n g2 h2) AllPreserve.nil
 
+/-- programs whose gate segments are gate lists of the gate set inside the register, with measurements and
+    measurement-controlled alternatives nested to any depth -/
+inductive GateProgram (k : Consts R) (n : Nat) : List (Step R) → Prop
+  | nil : GateProgram k n []
+  | gates (ops : List Op) (rest : List (Step R)) : (∀ o ∈ ops, o.inReg n) → GateProgram k n rest →
+      GateProgram k n (Step.apply (semOps k ops) :: rest)
+  | measure (q : Nat) (rest : List (Step R)) : GateProgram k n rest → GateProgram k n (Step.measure q :: rest)
+  | cmeasure (q : Nat) (on0 on1 rest : List (Step R)) : GateProgram k n on0 → GateProgram k n on1 → GateProgram k n rest →
+      GateProgram k n (Step.cmeasure q on0 on1 :: rest)
+
+theorem GateProgram.allPreserve (k : Consts R) (L : k.Laws) (S : k.StarLaws) (n : Nat) (steps : List (Step R))
+    (h : GateProgram k n steps) : AllPreserve (wt (R := R)) n steps := by
+  induction h with
+  | nil => exact AllPreserve.nil
+  | gates ops rest hops _ ih => exact AllPreserve.apply _ _ (gates_preserve k L S n ops hops) ih
+  | measure q rest _ ih => exact AllPreserve.measure q _ ih
+  | cmeasure q on0 on1 rest _ _ _ ih0 ih1 ih => exact AllPreserve.cmeasure q on0 on1 _ ih0 ih1 ih
+
+/-- **Born rule for every program of the gate set**: any interleaving of gate lists, MEASURE and CMEASURE
+    (alternatives nested to any depth) — the probabilities of all outcome strings sum to the norm of the input,
+    for every register size -/
+theorem branch_probs_sum_program (k : Consts R) (L : k.Laws) (S : k.StarLaws) (n : Nat) (steps : List (Step R))
+    (h : GateProgram k n steps) (fuel : Nat) (ψ : State R) :
+    totalProb (wt (R := R)) n fuel steps ψ = normSq n ψ := by
+  have hw : wt (0 : R) = 0 := by simp [wt]
+  rw [branch_probs_sum (wt (R := R)) hw n fuel steps ψ (GateProgram.allPreserve k L S n steps h)]
+  rfl
+
 end gates
 
 /-! ## splitting joint frequencies into mid-circuit and final parts conserves the total -/
